@@ -70,6 +70,19 @@ def tree(st, name):
     return n
 
 
+def witness_spans(t, inherited=False):
+    """fix the spans the path left open so that the witness exercises inheritance: open nodes under a (possibly) spanned
+    bundle get no span, open bundles above them get one"""
+    if t.span is None:
+        if inherited:
+            t.span = False
+        elif t.kids is not None and any(k.span is None or k.span is False for k in t.kids):
+            t.span = True
+    for k in (t.kids or []):
+        witness_spans(k, inherited or bool(t.span))
+    return t
+
+
 def count_leaves(t):
     return 1 if t.kids is None else sum(count_leaves(k) for k in t.kids)
 
@@ -81,6 +94,10 @@ def locs_items(t):
 def flat(t, prefix=(), inherited=None):
     """reference flatten: list of (leaf node, location items outer->inner, node whose span the leaf ends up with)"""
     src = inherited if t.span is False else t
+    if t.span is None and inherited is not None:
+        # the implementation never looked at this node's span although a bundle span is there to inherit:
+        # it cannot have computed `own span if any, else the bundle's`
+        src = ("must-inspect", inherited)
     if t.kids is None:
         return [(t, list(prefix) + locs_items(t), src)]
     out = []
@@ -91,6 +108,8 @@ def flat(t, prefix=(), inherited=None):
 
 def span_matches(sp, src, st):
     """the viewed span field is the span of input node `src` (None: no span)"""
+    if isinstance(src, tuple):
+        return False
     if src is None:
         return span_none(sp) or (isinstance(sp, L) and st.decisions.get(sp.name + "#d") == 0)
     if isinstance(sp, L):
@@ -187,7 +206,7 @@ def check_flat_result(got, t, st):
             return False
         return span_matches(g[3], srcs[leafnode.name], st)
     fl = flat(t)
-    srcs = {n.name: (src if (src is None or src.span is not False) else None) for n, items, src in fl}
+    srcs = {n.name: (src if (src is None or isinstance(src, tuple) or src.span is not False) else None) for n, items, src in fl}
     if len(exp) == 1:
         return leaf_ok(got, exp[0], fl[0][0])
     if got[0] != "multi" or len(got[1]) != len(exp):
@@ -369,7 +388,7 @@ def native_flat_json(t, st):
         own = [tok(l) for l in (n.locs or [])]
         anc = [tok(x[1]) for x in norm_items(items, st) if x[0] == "s"]
         # items already include own locations at the end
-        d = {"msg": native_msg(n, st) + ((" at " + "/".join(anc)) if anc else ""), "span": bool(src is not None and src.span), "len": 1}
+        d = {"msg": native_msg(n, st) + ((" at " + "/".join(anc)) if anc else ""), "span": bool(src is not None and not isinstance(src, tuple) and src.span), "len": 1}
         outs.append(d)
     if len(outs) == 1:
         return outs[0]
@@ -444,8 +463,10 @@ def block(ck, prog, natbin, quick, which, cfg, dcfg):
                     if t.kids and len(ck.samples) < 6:
                         ck.sample({"entry": ent, "decisions": {k: str(v) for k, v in l.decisions.items()}, "result": repr(got)[:400], "native_request": rq})
                 else:
-                    fail(ent, "%s:leaves" % req, "flatten does not yield the leaves left-to-right with full location paths", rq,
-                         {"result": native_flat_json(t, l)}, got)
+                    t2 = witness_spans(tree(l, "e"))
+                    rq2 = "(%s %s)" % (req, native_err(t2, l))
+                    fail(ent, "%s:leaves" % req, "flatten does not yield the leaves left-to-right with full location paths and inherited spans", rq2,
+                         {"result": native_flat_json(t2, l)}, got)
 
     if which == "multiple":
         I, e, leaves = explore("entry_multiple", ["v"], pol)
